@@ -255,6 +255,12 @@ func (u *Unit) candidates(fn *ssa.Function, head *ssa.BasicBlock, ord int, mods 
 						return Le(w.SLen(f.Cells[c]), Add(f.Cells[d], IntLit(off)))
 					}})
 				}
+				for _, off := range []int64{0, -1} {
+					off := off
+					out = append(out, &candidate{fmt.Sprintf("%s.len>=#%d%+d", cid, cj, off), func(s *State, f *Frame, al *ActiveLoop) *Term {
+						return Ge(w.SLen(f.Cells[c]), Add(f.Cells[d], IntLit(off)))
+					}})
+				}
 			}
 		case isPointerLike(pt):
 			out = append(out, &candidate{cid + ".same", func(s *State, f *Frame, al *ActiveLoop) *Term {
@@ -391,6 +397,20 @@ func (u *Unit) enterBlock(s *State, f *Frame) bool {
 			nv := u.fresh(s, "lp_"+c.Comment, old.Sort)
 			s.assume(u.wf(s, pt, nv))
 			f.Cells[c] = nv
+		}
+	}
+	// iterators advanced in the loop (range over string): position is monotone and within the string
+	for b := range li.body[f.Block] {
+		for _, in := range b.Instrs {
+			if nx, ok := in.(*ssa.Next); ok {
+				if it := f.Iters[nx.Iter]; it != nil && it.IsStr {
+					np := u.fresh(s, "itpos", "Int")
+					s.assume(And(Ge(np, it.Pos), Le(np, u.W.StrLen(u.term(s, it.X)))))
+					nit := *it
+					nit.Pos = np
+					f.Iters[nx.Iter] = &nit
+				}
+			}
 		}
 	}
 	if mods.eff.allocs {
